@@ -112,11 +112,13 @@ func (m *CPU) Run(app risc.Application) (int, error) {
 			if err != nil {
 				return 0, err
 			}
-			if f {
+			if f && (!flush || fp < from) {
+				// Several units can request a flush in the same cycle: the oldest
+				// instruction decides from where and to where
 				from = fp
+				pc = p
 			}
 			flush = flush || f
-			pc = max(pc, p)
 			ret = ret || r
 		}
 
